@@ -701,7 +701,7 @@ var pauseTypes = []string{"PauseBurningAndMinting", "UnpauseBurningAndMinting", 
 
 var C12 = register(&HistProp{ID: "C12",
 	Genesis: func(t *rapid.T) *sim.GenSpec {
-		g := sim.DrawGenesis(t, sim.GenOpts{NoPause: true, BigBalances: true})
+		g := sim.DrawGenesis(t, sim.GenOpts{NoPause: true, BigBalances: true, NoAttesters: true})
 		g.BMPaused = rapid.Bool().Draw(t, "gen-bm")
 		g.SRPaused = rapid.Bool().Draw(t, "gen-sr")
 		g.MaxBody = 8000
